@@ -38,6 +38,24 @@ CLAIMED = {
         text="Acceptance.tla states the diffuse and target estimators from the table columns (weight from beta/theta/path_len, cone cut, trigger cut, dark-sky cut for target-optical only, x0.826 x pexit, / thrown); TLC checks permutation invariance, threshold monotonicity, <= 0.826 x geometric, dark-sky-only-removes and division by thrown on a lattice with values ON the thresholds. Direct calls of RegionGeom/RegionGeomToO.mcintegral with constructed arrays (trigger = threshold, one ulp below, detector exactly on / just outside the cone, decay at the detector distance) and the header values of full runs (thresholds placed at the median signal of each channel) are trace events whose integral, geometry-only integral, passing count and per-event contribution column TLC recomputes to 1e-9.",
         note="Assumes: dark-sky booleans from astropy evaluated by the harness from configuration values; radio trigger = public calculate_snr on the EFields column; finite triggers (the quantifier of C03).",
         design="4/C03"),
+    "C04": dict(
+        category="model_checking",
+        technique="TLA+ specs GridInterp.tla/TauTables.tla with the shipped tables as constants; MCGridInterp exhaustive over all monotone rows with plateaus; TLC evaluates the forward map F(z|E,beta)=u for every event recorded from grid_cdf_sampler / Taus.tau_energy (TraceTau.tla)",
+        text="The inverse transform is specified through the forward map (bilinear blend of the four neighbouring CDF rows, piecewise-linear in z), so plateaus need no special case. MCGridInterp checks exhaustively (all 35 rows over {0,1/4,..,1} x blends x queries) that the inverse is well defined, monotone and in range. The three shipped tables are read by TLC as JSON bit pairs; per recorded event TLC checks |F(z)-u|<=1e-12, z within the fraction axis, monotonicity in u within groups (stateful), the clamp rule below the table, the 1.19e-7 rule above it, rejection of out-of-table energies, and bit-equality of explicit-u and internal-generator calls; synthetic NssGrid grids are replayed through the sampler as well.",
+        note="Assumes: h5py export of the shipped files is the specification constant; scipy's bracketing convention is irrelevant at 1e-12.",
+        design="4/C04"),
+    "C05": dict(
+        category="model_checking",
+        technique="TLA+ spec TauTables.tla (Pexit = 10^bilerp(log10 floored table), clamps) model-checked over ALL nodes and cell centres of the three shipped tables; every Taus.tau_exit_prob event recomputed by TLC (TraceTau.tla); history independence via StageHistory traces",
+        text="MCTauTables walks all 25x51 nodes of each shipped table: node exactness, cell-centre value between the four corner values and in (0,1], clamp rules. Recorded events (all nodes, edges, centres, random points, below/above the angle range, out-of-range energies; several calls with different batch compositions on one object) are compared with the spec at 1e-12 (1e-5 for the above-table floor whose value the property gives as 1.19e-7).",
+        note="Assumes: h5py export of the shipped files; history independence is additionally decided by C11's interleaved Taus histories.",
+        design="4/C05"),
+    "C07": dict(
+        category="model_checking",
+        technique="TLA+ spec Kinematics.tla model-checked on a lattice (MCKinematics) + TauTables.TauAboveMass over all nodes and cells; Taus.__call__ / EAS.altDec events recomputed by TLC (TraceTau.tla)",
+        text="Kinematics.tla states gamma, beta_tau, shower energy, decay length, exponential law and decay altitude with constants written in the specification; MCKinematics checks ranges and monotonicity on a lattice including u=1 and u=5e-324; TauAboveMass shows gamma>=1 for every reachable tau energy of every table node and interpolation cell. Recorded events (four shower fractions, energies 1e6..1e12 GeV, beta in [0,42 deg], boundary u) are checked per formula at 1e-12/1e-9, plus monotonicity pairs and explicit-u vs internal generator.",
+        note="Assumes: Earth radius is a parameter taken from astropy.constants.R_earth (the property fixes only that one sphere is used).",
+        design="4/C07"),
 }
 
 NOT_BUILT_REASON = "not claimed yet: its specification module and binding are not finished in this tree (see DESIGN.md section 9 build order); no other technique is substituted"
